@@ -694,6 +694,14 @@ impl Driver {
                             .await,
                         )
                         .into(),
+                        "MsgSelf" => res_str(
+                            &h.mpc_msg(MpcMsg {
+                                from: p,
+                                data: vec![1, 2, 3],
+                            })
+                            .await,
+                        )
+                        .into(),
                         "MsgEarly" => res_str(
                             &h.mpc_msg(MpcMsg {
                                 from: (p + 1) % n,
@@ -744,7 +752,7 @@ impl Driver {
         let scheduled = self.called.contains_key(&(c, p, "schedule".into()));
         let not_yet = matches!(kind.as_str(), "Init" | "AwaitingValidation" | "ValidateRequested");
         match what {
-            "MsgBad" | "ConstsBad" => true,
+            "MsgBad" | "ConstsBad" | "MsgSelf" => true,
             "Schedule" => scheduled,
             "MsgEarly" => !scheduled,
             "Run" | "Consts" => not_yet && quiet,
@@ -799,7 +807,7 @@ impl Driver {
         if self.budget.stray > 0 && rng.random_range(0..8) == 0 {
             let c = rng.random_range(1..=scen.pol.len());
             let p = rng.random_range(0..scen.n);
-            let kinds: Vec<&str> = ["MsgBad", "Schedule", "MsgEarly", "Run", "Consts", "Validate", "RunEarly", "ConstsBad"]
+            let kinds: Vec<&str> = ["MsgBad", "Schedule", "MsgEarly", "Run", "Consts", "Validate", "RunEarly", "ConstsBad", "MsgSelf"]
                 .into_iter()
                 .filter(|k| self.stray_allowed(c, p, k))
                 .collect();
